@@ -253,4 +253,42 @@ example :
     r1.pid = .child ∧ r2.fs.dump = some [1, 2] ∧ r2.childStep.childStep.childStep.fs.dump = some [1, 2] ∧ r2.pid = .idle := by
   decide
 
+/-- **D66, for every moment at which the own dump was started.**  A fork-mode follower `r0` (idle, no child) receives
+any messages `before` (none, the first chunks, older abandoned transfers …), THEN starts its own dump (`serialize`,
+any image, failing or not), then — in any interleaving `during` of further messages and primitive operations of its
+child — goes on, and finally accepts a last chunk `c`: the install returns `True`, no child is left, no later child
+step changes anything, and `checkSerializing` reports NOT_SERIALIZING (never SUCCESS for the stopped child).
+`before = []` is "child started before the first chunk", `during` without messages and `c` the last chunk is "in the
+tick of the last chunk", everything in between is "between two chunks". -/
+theorem installed_snapshot_survives_own_dump_child_started_any_time
+    (r0 : Ser) (before : List (Option Chunk)) (id : Nat) (pieces : List Bytes) (fail : Bool)
+    (during : List (Option (Option Chunk))) (c : Chunk)
+    (hm : r0.mode = .file) (hf : r0.fork = true) (hp : r0.pid = .idle) (hc : r0.child = none)
+    (hacc : c.isFirst = true ∨ ((((r0.feed before).1.serialize id pieces fail).1.mix during).incOpen = true))
+    (hl : c.isLast = true) :
+    let r := (((r0.feed before).1.serialize id pieces fail).1.mix during).setTransmissionData (some c)
+    r.2 = true ∧ r.1.child = none ∧ r.1.childStep = r.1 ∧ (r.1.checkSerializing none).2.1 = .notSerializing := by
+  intro r
+  have h0 : r0.forkWF := ⟨hm, hf, Or.inl ⟨hp, hc⟩⟩
+  have h1 : (r0.feed before).1.forkWF := forkWF_feed before r0 h0
+  have h2 := forkWF_mix during _ (forkWF_serialize _ id pieces fail h1)
+  have h3 := forkWF_install _ c h2 hacc hl
+  have hwf := forkWF_set _ (some c) h2
+  have hchild : r.1.child = none := h3.2.1
+  have hpid : r.1.pid = .idle := h3.2.2
+  have hmode : r.1.mode = .file := hwf.1
+  have hfork : r.1.fork = true := hwf.2.1
+  refine ⟨h3.1, hchild, ?_, ?_⟩
+  · simp [Ser.childStep, hchild]
+  · simp [Ser.checkSerializing, Ser.memBranch, hmode, hfork, hpid]
+
+/-- non-vacuity: child started between the first and the last chunk, one child step in between -/
+example :
+    let r0 : Ser := { mode := .file, fork := true, batch := 1, fs := { dump := some [7] } }
+    let r := (((r0.feed [some ⟨[1], true, false⟩]).1.serialize 3 [[7, 7]] false).1.mix
+                [some (some ⟨[2], false, false⟩), none]).setTransmissionData (some ⟨[], false, true⟩)
+    (((r0.feed [some ⟨[1], true, false⟩]).1.serialize 3 [[7, 7]] false).1.mix [some (some ⟨[2], false, false⟩), none]).pid = .child ∧
+    r.2 = true ∧ r.1.fs.dump = some [1, 2] ∧ r.1.child = none ∧ r.1.childStep.childStep.fs.dump = some [1, 2] := by
+  decide
+
 end PSO.C09
